@@ -59,15 +59,26 @@ Global Instance iter_option {A} : Iterable (option A) A := fun o => match o with
 
 (** loops.  [for x in xs { .. }]: the `let mut` variables in scope are the state; `return v` inside the
     body leaves the loop with [Break v].  [xs.for_each(|x| ..)]: the same without [Break]. *)
-Inductive ctrl (S R : Type) : Type := Next (s : S) | Break (r : R).
+Inductive ctrl (S R : Type) : Type := Next (s : S) | Stop (s : S) | Break (r : R).
 Arguments Next {S R} s.
+Arguments Stop {S R} s.
 Arguments Break {S R} r.
 
+(** [Next]: go on with the next element; [Stop]: `break` - the loop ends, the state is kept;
+    [Break]: `return v` (or a failed [try_for_each] step) - the enclosing function ends *)
 Fixpoint loopM {S A R : Type} (f : S -> A -> rs (ctrl S R)) (l : list A) (s : S) : rs (ctrl S R) :=
   match l with
   | [] => Ret (Next s)
-  | x :: l' => bind (f s x) (fun c => match c with Next s' => loopM f l' s' | Break r => Ret (Break r) end)
+  | x :: l' => bind (f s x) (fun c => match c with
+                                      | Next s' => loopM f l' s'
+                                      | Stop s' => Ret (Stop s')
+                                      | Break r => Ret (Break r)
+                                      end)
   end.
+
+(** [v[i]] on a vector: panics when out of range *)
+Definition vec_index {A} (v : list A) (i : Z) : rs A :=
+  if (0 <=? i) then match nth_error v (Z.to_nat i) with Some x => Ret x | None => Panic end else Panic.
 
 Fixpoint foldM {S A : Type} (f : S -> A -> rs S) (l : list A) (s : S) : rs S :=
   match l with
